@@ -3,6 +3,7 @@
 // copy, clear, inner_product.  Every case runs the real amgcl function under the fiber OpenMP
 // shim with a chosen team size and compares every output element by == with the defining
 // formula evaluated in complex<long double> on small-integer / dyadic inputs.
+#include <cstring>
 #include <complex>
 #include <numeric>
 #include "vsched.hpp"
@@ -255,6 +256,51 @@ static void run_inner_product() {
     vf::space(vf::KS() << "inner_product " << tn << " (" << kind << "): lengths {0..5,7,63,64,65,130} x 3 contents x threads {1,2,3,5,63,64,65}; formula + hermitian + sesquilinearity with all coefficients");
 }
 
+// ------------------------------------------------------------------- inner_product called from inside a region
+// The caller's own code may already be inside an active parallel region (nesting disabled, libgomp's default): the
+// library's inner region then runs as a team of ONE while omp_get_max_threads() still answers nt, so only slot 0 of
+// the per-thread partial-sum array is written by the team.  Whatever the stack held before must not reach the result:
+// every member of the outer team first fills the stack area the callee is going to use with a fixed pattern
+// (0x00 control, 0xFF = NaN, 1e300 doubles), then calls the real inner_product.
+__attribute__((noinline)) static void stale_stack(int pat) {
+    volatile unsigned char buf[48 * 1024];
+    if (pat == 2) { double big = 1e300; unsigned char b[8]; std::memcpy(b, &big, 8); for (size_t i = 0; i < sizeof(buf); ++i) buf[i] = b[i % 8]; }
+    else for (size_t i = 0; i < sizeof(buf); ++i) buf[i] = pat == 1 ? 0xFF : 0x00;
+    asm volatile("" ::: "memory");
+}
+
+template <class T, int K>
+static void run_inner_product_nested() {
+    typedef typename coef_of<T>::type C;
+    const char *tn = tname<T>::get();
+    const char *kind = Holder<T, K>::kind();
+    static const char *pn[] = {"zero", "ff", "1e300"};
+    for (int n : {0, 1, 2, 5, 64, 130}) for (int nt : {2, 3, 5, 63, 64, 65}) for (int outer : {2, 3}) for (int pat = 0; pat < 3; ++pat) {
+        std::string key = std::string(vf::KS() << "ipnest|" << tn << "|" << kind << "|" << n << "|" << nt << "|o" << outer << "|" << pn[pat]);
+        if (!vf::take([&]{ return key; })) continue;
+        Holder<T, K> x(n), y(n);
+        fill(x, 1 + pat, 1); fill(y, 2 + outer, 2);
+        if (n > 1) vf::nontrivial(vf::hstr(key));
+        CLD want(0, 0);
+        for (int i = 0; i < n; ++i) want += rdot(to_ref(x[i]), to_ref(y[i]));
+        RM w; w.a[0] = want;
+        std::vector<C> got(outer);
+        with_threads(nt, [&]{
+#pragma omp parallel num_threads(outer)
+            {
+                int me = omp_get_thread_num();
+                stale_stack(pat);
+                got[me] = backend::inner_product(x.vec(), y.vec());
+            }
+            return 0;
+        });
+        vf::count("inner_product_from_inside_region", outer);
+        for (int t = 0; t < outer; ++t)
+            if (!eq(got[t], w)) { vf::fail(std::string("inner_product.inside_active_region[") + tn + "]", key, vf::KS() << "n=" << n << " max_threads=" << nt << ", called by member " << t << " of an outer team of " << outer << " (inner team of one), stack pattern " << pn[pat] << ": got=" << show(got[t]) << " want=" << rshow(w)); break; }
+    }
+    vf::space(vf::KS() << "inner_product " << tn << " (" << kind << ") called from every member of an outer region: lengths {0,1,2,5,64,130} x max_threads {2,3,5,63,64,65} x outer team {2,3} x stale stack {00,FF,1e300}");
+}
+
 // compensated summation: x = (1, u, u, ..., u) (u = unit roundoff of S), y = ones.  Exact value
 // 1 + (n-1) u.  Error bound of the implemented algorithm: every thread sums its static chunk
 // with Kahan's method (|error| <= (2u + O(n u^2)) * sum|x_i|, Higham ASNA Sec. 4.3 eq. (4.8); the
@@ -338,6 +384,10 @@ int main(int argc, char **argv) {
         run_inner_product<std::complex<float>, 1>(); run_inner_product<std::complex<double>, 1>();
         run_inner_product<R2, 1>(); run_inner_product<R3, 1>(); run_inner_product<RC2, 1>();
         run_inner_product<double, 0>(); run_inner_product<double, 2>(); run_inner_product<std::complex<double>, 0>(); run_inner_product<R2, 0>();
+    }
+    if (vf::section("ipnest")) {
+        run_inner_product_nested<float, 1>(); run_inner_product_nested<double, 1>(); run_inner_product_nested<long double, 1>();
+        run_inner_product_nested<std::complex<double>, 1>(); run_inner_product_nested<R2, 1>(); run_inner_product_nested<RC2, 1>(); run_inner_product_nested<double, 0>();
     }
     if (vf::section("kahan")) { run_kahan<float>(); run_kahan<double>(); run_kahan<long double>(); }
     return vf::finish();
